@@ -39,13 +39,13 @@ func droppedError(cs ssa.CallInstruction) bool {
 type dropKey struct{ fn, callee string }
 
 var acceptedDrops = map[dropKey]string{
-	{"PersistSegmentBase$1", "(*os.File).Close"}:  "cleanup closure: best effort on a path that already returns the original error",
-	{"PersistSegmentBase$1", "os.Remove"}:         "cleanup closure: best effort on a path that already returns the original error",
-	{"mergeSegmentBases$1", "(*os.File).Close"}:   "cleanup closure: best effort on a path that already returns the original error",
-	{"mergeSegmentBases$1", "os.Remove"}:          "cleanup closure: best effort on a path that already returns the original error",
-	{"ZapPlugin.Open", "(*os.File).Close"}:        "failure path of Open (mmap failed): the mmap error is returned",
-	{"ZapPlugin.Open", "(*Segment).Close"}:        "failure paths of Open: the loader's error is returned",
-	{"persistFieldsSection", "encoding/binary.Write"}: "sticky writer: accepted only while R7b holds (bytes.Buffer never fails; bufio.Writer errors are sticky and Flush is tested)",
+	{"PersistSegmentBase$1", "(*os.File).Close"}:                       "cleanup closure: best effort on a path that already returns the original error",
+	{"PersistSegmentBase$1", "os.Remove"}:                              "cleanup closure: best effort on a path that already returns the original error",
+	{"mergeSegmentBases$1", "(*os.File).Close"}:                        "cleanup closure: best effort on a path that already returns the original error",
+	{"mergeSegmentBases$1", "os.Remove"}:                               "cleanup closure: best effort on a path that already returns the original error",
+	{"ZapPlugin.Open", "(*os.File).Close"}:                             "failure path of Open (mmap failed): the mmap error is returned",
+	{"ZapPlugin.Open", "(*Segment).Close"}:                             "failure paths of Open: the loader's error is returned",
+	{"persistFieldsSection", "encoding/binary.Write"}:                  "sticky writer: accepted only while R7b holds (bytes.Buffer never fails; bufio.Writer errors are sticky and Flush is tested)",
 	{"SegmentBase.VisitDocValues", "(*docValueReader).visitDocValues"}: "read path; not in the scope of C17/C19 (listed so that the enumeration is complete)",
 	{"Segment.loadDvReaders", "(*Segment).loadDvReader"}:               "read path; tabled difference between the two loaders (R15c)",
 }
@@ -55,7 +55,7 @@ func ruleR7() *Rule {
 		ID:    "R7",
 		Title: "ERR-DISCIPLINE: no error result is dropped; sticky-writer precondition; section siblings agree",
 		Props: []string{"C17", "C19"},
-		Floor: func(cfg Config, prop string) int { return 8 },
+		Floor: floorFor("R7"),
 		Run: func(c *RuleCtx) {
 			r7Drops(c)
 			r7bSticky(c)
